@@ -192,3 +192,24 @@ Theorem C19_findpath_sound :
       (forall fuel es', unravel K dst fuel (s_dm K s) src = Some es' -> es' = es) /\
       route_valid g en rs amt src dst (new_route en src amt es) szs = true.
 Proof. exact findpath_sound. Qed.
+
+(* End to end: the route built from the chain findPath returns satisfies every
+   clause of the property (route_ok), for every guarded run of the search. *)
+Theorem C19_findpath_route_ok :
+  forall (K : keyops), keyops_ok K ->
+  forall g en rs amt src dst last_size (minprob : kP K),
+    0 <= fee_limit rs -> 0 < amt ->
+  forall s,
+    greach K g en rs amt src dst last_size minprob s ->
+    s_done K s = true ->
+    exists es szs os,
+      unravel K dst (length es) (s_dm K s) src = Some es /\
+      resolve g src (r_hops (new_route en src amt es)) = Some os /\
+      route_ok g en rs amt src dst (new_route en src amt es) szs os.
+Proof.
+  intros K KO g en rs amt src dst last_size minprob Hf Ha s Hr Hd.
+  destruct (findpath_sound K KO g en rs amt src dst last_size minprob Hf Ha s Hr Hd)
+    as (es & szs & Hu & _ & Hv).
+  destruct (checker_sound _ _ _ _ _ _ _ _ Hv) as (os & Hres & Hok).
+  exists es, szs, os. split; [apply Hu; apply le_n|]. split; assumption.
+Qed.
